@@ -4,6 +4,7 @@ import random
 from fractions import Fraction
 from ..core.scenario import digest
 from ..model import types as T
+from ..model import gen as G
 from ..model import rules
 from ..model.namespace import Universe
 from .base import Check, Outcome, InvalidScenario
@@ -96,6 +97,13 @@ def gen_const(rng: random.Random, name: str):
             lit = "%d.0" % ip  # a long integral real literal (e.g. the exact float32 maximum)
         v = _F(lit)
         return ["c", t, name, lit, [v.numerator, v.denominator]]
+    if rng.random() < 0.12:
+        # initializers that are small constant expressions (negative integer exponents etc.); exact values computed by hand
+        lit, val = rng.choice(G.FLOAT_EXPRS if t[0] == "f" else G.INT_EXPRS + G.FLOAT_EXPRS[:8])
+        extra = rng.choice(["", "", " * 3", " + 655040 * 10 ** -1 - 65504"])
+        if extra == " * 3":
+            val = [val[0] * 3, val[1]]
+        return ["c", t, name, "(" + lit + ")" + extra, list(val)]
     if t[0] == "f":
         e = FLOAT_EXPR[t[1]]
         choice = rng.randrange(9)
